@@ -12,6 +12,16 @@
 (*  "cps"  the per-code-point sweep: str path against UTF-8 bytes path                       *)
 (*  "raw"  invalid / truncated input: nothing the property states applies; the clauses here  *)
 (*         are named beyond.* and are reported as DIVERGENCE, never as a violation           *)
+(*  "broken" UTF-8 byte text in which multi-byte characters are cut short (a proper prefix of  *)
+(*         a 2-, 3- or 4-byte character followed by ASCII, by another character or by the end  *)
+(*         of the text).  "invalid/truncated UTF-8" is in the quantifier of the property, and  *)
+(*         the sentences "width, offset for a column ... agree with each other" and "widths    *)
+(*         are additive" need a unit: every byte that does not belong to a well-formed         *)
+(*         character is a character of its own, one column wide (urwid shows it as '?').      *)
+(*         chars holds such a byte as [cp |-> 63, w |-> 1, b |-> 1, enc |-> <<byte>>]; the str *)
+(*         the bytes are compared with has '?' in its place.  Judged by the very clauses of    *)
+(*         "text" for width, offset-for-column, is-wide and trimming; stepping and decode_one   *)
+(*         are not asked (urwid steps over a cut character as one unit: no sentence says how). *)
 (*  "switch" ONE process, ONE byte string (same = "bytes": tr.raw) or ONE str (same = "str"), *)
 (*         several encodings: views = sequence of [enc, mode, chars], the text that input is  *)
 (*         under each encoding.  An event op = "setenc" is a real urwid.set_encoding(enc)     *)
@@ -110,6 +120,14 @@ VText(tr, e) ==
          [] e.op = "trimcs" -> VTrimCs(cs, e)
          [] OTHER -> "no_action"
 
+\* ------------------------------------------------------------------ cut-short UTF-8
+\* tr.bad[k] = 1: character k of chars is a byte outside every well-formed character
+VBroken(tr, e) ==
+  LET cs == tr.chars IN
+  IF tr.mode # "utf8" \/ Len(tr.bad) # Len(cs) \/ e.op \notin {"width", "pos", "wide", "trim", "trimcs"} THEN "no_action"
+  ELSE IF \E k \in 1..Len(cs) : tr.bad[k] = 1 /\ (cs[k].w # 1 \/ cs[k].b # 1 \/ cs[k].cp # 63 \/ cs[k].enc[1] < 128) THEN "no_action"
+  ELSE VText(tr, e)
+
 \* ------------------------------------------------------------------ apply_target_encoding
 \* e.src = "str": the text itself was encoded; "bytes": its already encoded byte form was passed through;
 \* e.ctl: the input contains literal SO / SI control characters (then only the run-length clause applies)
@@ -180,6 +198,7 @@ Verdict(tr, e, c) ==
     [] tr.kind = "enc" -> VEnc(tr, e)
     [] tr.kind = "cps" -> VCp(e)
     [] tr.kind = "raw" -> VRaw(tr, e)
+    [] tr.kind = "broken" -> VBroken(tr, e)
     [] tr.kind = "switch" -> VSwitch(tr, e, c)
     [] OTHER -> "no_action"
 
